@@ -413,10 +413,16 @@ func main() {
 	bus("1s2e-late-listen+live", -1, -1, [][]string{{"a", "b"}}, live, lspec{pre: false, abandon: -1})
 	bus("1s2e-abandon1+live", -1, -1, [][]string{{"a", "b"}}, lspec{pre: true, abandon: 1}, live)
 	bus("1s2e-abandon0", -1, -1, [][]string{{"a", "b"}}, lspec{pre: true, abandon: 0})
+	// a listener that registers while a Send is collecting a cancelled one must stay registered
+	bus("1s3e-cancel+late-listen", -1, -1, [][]string{{"a", "b", "c"}}, lspec{pre: true, cancel: true, abandon: -1}, lspec{pre: false, abandon: -1})
+	bus("2s2e-cancel+late-listen", -2, -1, [][]string{{"a", "b"}, {"x", "y"}}, lspec{pre: true, cancel: true, abandon: -1}, lspec{pre: false, abandon: -1})
 	bus("1s3e-live+cancel", -2, -1, [][]string{{"a", "b", "c"}}, live, lspec{pre: true, cancel: true, abandon: -1})
 	bus("2s2e-live+cancel", -2, -1, [][]string{{"a", "b"}, {"x", "y"}}, live, lspec{pre: true, cancel: true, abandon: -1})
 	bus("1s2e-3listeners", -2, -1, [][]string{{"a", "b"}}, live, lspec{pre: true, cancel: true, abandon: -1}, lspec{pre: false, abandon: 1})
-	bus("2s2e-2cancel", -2, -1, [][]string{{"a", "b"}, {"x", "y"}}, lspec{pre: true, cancel: true, abandon: -1}, lspec{pre: true, cancel: true, abandon: -1})
+	bus("2s1e-2cancel", -2, -1, [][]string{{"a"}, {"x"}}, lspec{pre: true, cancel: true, abandon: -1}, lspec{pre: true, cancel: true, abandon: -1})
+	// the unbounded schedule space of this one is beyond any budget (> 10^7 executions): every schedule with at
+	// most one preemption, and the smaller sibling above without a bound
+	bus("2s2e-2cancel", -2, 1, [][]string{{"a", "b"}, {"x", "y"}}, lspec{pre: true, cancel: true, abandon: -1}, lspec{pre: true, cancel: true, abandon: -1})
 
 	res := func(kind string, q, t int, writes []string, subs ...subSpec) {
 		var ss []string
@@ -450,5 +456,6 @@ func main() {
 			h.Sched(name, -1, -1, modelBody(name, ab, bp), hx.StdOracle)
 		}
 	}
+	registerGeneric(h)
 	h.Run()
 }
